@@ -774,11 +774,13 @@ def extract_standalone(db, name, text):
 
 
 # ---------------------------------------------------------------------------------------------- effects behind helpers
-def lifted_sites(db, f, pred, max_nodes=160):
+def lifted_sites(db, f, pred, max_nodes=160, must=True):
     """Sites of f at which an effect described by pred happens - written in f itself, or inside a library helper that f
     calls and that performs it on every path from its entry to its normal exit (an extracted function is the same
     code).  pred(fn, node, txt) -> truthy, where txt(expr) renders an expression of fn in f's terms (for a helper: its
-    parameters replaced by the text of the caller's arguments, `this->` dropped).  Returns [(site node in f, node, fn)]."""
+    parameters replaced by the text of the caller's arguments, `this->` dropped).  Returns [(site node in f, node, fn, txt)]
+    as 3-tuples (site, node, fn); with must=False a helper's conditional sites count too (the caller asks "where", not
+    "always").  The txt function of each hit is available as node-independent attribute via lifted_txt(db, f, site, fn)."""
     import re as _re
     from . import cfg as _cfg
     out = []
@@ -814,7 +816,7 @@ def lifted_sites(db, f, pred, max_nodes=160):
                 if gh is None:
                     gh = _cfg.FnCFG(h)
                 pm = gh.pos(m)
-                if pm is not None and gh.reaches_exit_avoiding((gh.entry, -1), [pm], normal_only=True) is None:
+                if pm is not None and (not must or gh.reaches_exit_avoiding((gh.entry, -1), [pm], normal_only=True) is None):
                     out.append((c, m, h))
     return out
 
@@ -960,3 +962,22 @@ def deep_text(db, f, e, depth=2):
                     if len(st) == 1 and st[0]["k"] == "ReturnStmt" and st[0].get("c"):
                         out.append(deep_text(db, h, st[0]["c"][0], depth - 1))
     return " ".join(out)
+
+
+def lifted_txt(db, f, site, fn):
+    """the txt function lifted_sites used for helper fn called at `site` of f (identity-with-this-dropped when fn is f)"""
+    import re as _re
+    from . import cfg as _cfg
+    if fn is f:
+        return lambda e: expr_str(e).replace("this->", "")
+    sub = {}
+    for p_, a_ in zip(fn.get("params", ()), _cfg.args(site)):
+        if p_.get("name"):
+            sub[p_["name"]] = expr_str(strip_all(inline_locals(f, a_))).replace("this->", "")
+
+    def txt(e):
+        t = expr_str(e).replace("this->", "")
+        for nm, rep_ in sub.items():
+            t = _re.sub(r"(?<![\w.>])%s(?!\w)" % _re.escape(nm), lambda m_: rep_, t)
+        return t
+    return txt
